@@ -71,6 +71,10 @@ func ruleStopCancelsTable(c *chk.Ctx, owner string, table *types.Var, via *types
 		c.Undecided("TOKEN.stop", nil, owner+" stop function", 0, "stop function not uniquely resolved")
 		return
 	}
+	if table == nil {
+		c.Undecided("TOKEN.stop", stop, what, stop.Pos(), "the table of %s was not resolved", what)
+		return
+	}
 	var closeSite ssa.Instruction
 	for _, s := range chanSites(c, "Close") {
 		if s.owners[owner] {
